@@ -34,22 +34,55 @@ pub enum Mode { Seq, Working, Ineffective }
 #[derive(Clone, Copy, Debug, PartialEq, Eq)]
 enum Op { Load, Commit }
 
+/// Where operation timestamps come from (they are part of the operation id, and `resolve_op_heads`
+/// orders the parents of a merge operation by them):
+///  * `Real`     — the wall clock (ms resolution): ties, and therefore the order of merge parents and
+///                 whether two resolvers write the *identical* merge operation, depend on machine speed;
+///  * `Same`     — every operation of the case has the same `debug.operation-timestamp`: ties always
+///                 (parent order = `HashSet` iteration order; two resolvers that pick the same parent
+///                 order write one and the same merge operation);
+///  * `Distinct` — every operation gets its own, strictly increasing timestamp in start order: no ties,
+///                 everything is determined by the schedule.
+#[derive(Clone, Copy, Debug, PartialEq, Eq)]
+pub enum Clock { Real, Same, Distinct }
+
 type Res = Result<Arc<ReadonlyRepo>, String>;
 
 /// One repository on disk reused by all cases: before each case `op_heads/heads/` is reset to the
 /// state `SimpleOpHeadsStore::init` leaves (only the initial head's marker file).  Operations of
 /// earlier cases stay in the op store; they are unreachable from the new heads and have unique ids.
-struct Env { test_repo: TestRepo, heads_dir: PathBuf, initial_head: String, loaders: Vec<RepoLoader> }
+struct Env { test_repo: TestRepo, heads_dir: PathBuf, initial_head: String, loaders: Vec<RepoLoader>, same_clock_loader: RepoLoader,
+    /// loaders with timestamp tick 1, 2, … (created on demand, reused by later cases: creating a loader and
+    /// warming its index cache is the expensive part of an operation)
+    tick_loaders: std::cell::RefCell<Vec<RepoLoader>> }
+
+/// a loader (own store instances); with `tick`, all its operations carry the timestamp
+/// 2020-01-01T00:00:00Z + `tick` seconds (`debug.operation-timestamp`)
+fn make_loader(test_repo: &TestRepo, tick: Option<u64>) -> RepoLoader {
+    let mut config = testutils::base_user_config();
+    if let Some(tick) = tick {
+        let (day, h, m, sec) = (1 + tick / 86400, tick / 3600 % 24, tick / 60 % 60, tick % 60);
+        let text = format!("debug.operation-timestamp = \"2020-01-{day:02}T{h:02}:{m:02}:{sec:02}+00:00\"\n");
+        config.add_layer(jj_lib::config::ConfigLayer::parse(jj_lib::config::ConfigSource::CommandArg, &text).unwrap());
+    }
+    let settings = jj_lib::settings::UserSettings::from_config(config).unwrap();
+    RepoLoader::init_from_file_system(&settings, test_repo.repo_path(), &test_repo.env.default_backend_factories()).expect("loader")
+}
+
 impl Env {
     fn new(max_np: usize) -> Self {
         let test_repo = TestRepo::init();
-        let settings = testutils::user_settings();
         let heads_dir = test_repo.repo_path().join("op_heads").join("heads");
-        let loaders = (0..max_np).map(|_| RepoLoader::init_from_file_system(&settings, test_repo.repo_path(),
-            &test_repo.env.default_backend_factories()).expect("loader")).collect();
+        let loaders = (0..max_np).map(|_| make_loader(&test_repo, None)).collect();
+        let same_clock_loader = make_loader(&test_repo, Some(0));
         let heads: Vec<String> = std::fs::read_dir(&heads_dir).unwrap().map(|e| e.unwrap().file_name().into_string().unwrap()).collect();
         assert_eq!(heads.len(), 1, "a fresh repo has one op head");
-        Env { test_repo, heads_dir, initial_head: heads[0].clone(), loaders }
+        Env { test_repo, heads_dir, initial_head: heads[0].clone(), loaders, same_clock_loader, tick_loaders: Default::default() }
+    }
+    fn loader_for_tick(&self, tick: u64) -> RepoLoader {
+        let mut pool = self.tick_loaders.borrow_mut();
+        while (pool.len() as u64) < tick { let t = pool.len() as u64 + 1; pool.push(make_loader(&self.test_repo, Some(t))); }
+        pool[tick as usize - 1].clone()
     }
     fn reset(&self) {
         for e in std::fs::read_dir(&self.heads_dir).unwrap() { std::fs::remove_file(e.unwrap().path()).unwrap(); }
@@ -57,7 +90,10 @@ impl Env {
     }
 }
 
-struct Case {
+struct Case<'a> {
+    env: &'a Env,
+    clock: Clock,
+    tick: u64,
     heads_dir: PathBuf,
     sched: Sched<Res>,
     loaders: Vec<RepoLoader>,
@@ -76,19 +112,21 @@ struct Case {
     failed: Option<(String, String)>,
     max_heads: usize,
     merges: usize,
+    /// a resolver wrote a merge operation whose id already existed (same parents, order and timestamp)
+    identical_merges: usize,
     counter: usize,
 }
 
-impl Case {
-    fn new(np: usize, env: &Env) -> Self {
+impl<'a> Case<'a> {
+    fn new(np: usize, env: &'a Env, clock: Clock) -> Self {
         env.reset();
         let heads_dir = env.heads_dir.clone();
         let loaders: Vec<RepoLoader> = env.loaders[..np].to_vec();
         let _ = &env.test_repo;
-        let mut c = Case { heads_dir, sched: Sched::new(np, "opheads."), loaders, handle: vec![None; np],
+        let mut c = Case { env, clock, tick: 0, heads_dir, sched: Sched::new(np, "opheads."), loaders, handle: vec![None; np],
             cur_op: vec![None; np], resolved: vec![0; np], num: HashMap::new(), dag: vec![], order: vec![],
             slot: Arc::new(Mutex::new(None)), lock_holder: None, added: BTreeSet::new(), req: vec![], ans: vec![],
-            failed: None, max_heads: 0, merges: 0, counter: 0 };
+            failed: None, max_heads: 0, merges: 0, identical_merges: 0, counter: 0 };
         let init = c.list_dir();
         assert_eq!(init.len(), 1, "a fresh repo has one op head");
         c.num.insert(init[0].clone(), 0);
@@ -151,7 +189,15 @@ impl Case {
     }
 
     fn start(&mut self, pid: usize, op: Op) {
-        let loader = self.loaders[pid].clone();
+        // every operation of a process runs on that process's own loader; the clock mode decides which
+        // `debug.operation-timestamp` (if any) its settings carry
+        self.tick += 1;
+        let loader = match self.clock {
+            Clock::Real => self.loaders[pid].clone(),
+            Clock::Same => self.env.same_clock_loader.clone(),
+            Clock::Distinct => self.env.loader_for_tick(self.tick),
+        };
+        let reload_base = self.clock != Clock::Real;
         let handle = self.handle[pid].clone();
         let slot = self.slot.clone();
         *slot.lock().unwrap() = None;
@@ -162,7 +208,11 @@ impl Case {
             match op {
                 Op::Load => loader.load_at_head().block_on().map_err(|e| format!("{e}: {:?}", std::error::Error::source(&e).map(|s| s.to_string()))),
                 Op::Commit => {
-                    let base = handle.expect("commit needs a loaded repo");
+                    let mut base = handle.expect("commit needs a loaded repo");
+                    if reload_base {
+                        // same repo state, but through the loader whose settings carry this operation's timestamp
+                        base = loader.load_at(base.operation()).block_on().map_err(|e| e.to_string())?;
+                    }
                     let tx = base.start_transaction();
                     let unpublished = tx.write(desc).block_on().map_err(|e| e.to_string())?;
                     let o = unpublished.operation();
@@ -208,12 +258,20 @@ impl Case {
             "opheads.remove" => { let n = self.number_of(&detail); arg = Some(n); format!("rm:{n}") }
             other => format!("?{other}"),
         };
+        // number of heads that survive the ancestor filter, as the resolver is about to see them
+        let filtered_before = self.order.iter().filter(|h| !self.order.iter().any(|h2| h2 != *h && self.is_anc(**h, *h2))).count();
         let st = self.sched.step(pid);
-        // a resolver that is now about to add an operation we have not seen has created a merge:
-        // that operation is the argument of the read step just performed
+        // A resolver that is parked at `opheads.add` right after a read is about to add either the single
+        // head that survived the filter or the merge operation it has just written; that operation is the
+        // argument of the read step (the model ignores it in the first case and checks its parents in the
+        // second).  The merge operation need not be new to us: ids are content hashes, and two resolvers
+        // that merge the same heads in the same order within the same timestamp write one and the same
+        // operation (so does a resolver repeating the merge of one that crashed before its `add`).
         if kind == "opheads.read" {
             if let PState::At("opheads.add", hex) = &st {
-                if !self.num.contains_key(hex) { let n = self.number_of(hex); arg = Some(n); self.merges += 1; }
+                if !self.num.contains_key(hex) { self.merges += 1; }
+                else if filtered_before >= 2 { self.identical_merges += 1; }
+                arg = Some(self.number_of(hex));
             }
         }
         self.req.push(match arg { Some(a) => format!("T{pid}:{a}"), None => format!("T{pid}") });
@@ -228,8 +286,7 @@ impl Case {
                 match self.sched.take_result(pid).unwrap() {
                     Ok(repo) => {
                         let n = self.number_of(&repo.operation().id().hex());
-                        if op == Op::Load { self.resolved[pid] = n; }
-                        item += &format!(" ret={}", self.resolved[pid]);
+                        if op == Op::Load { self.resolved[pid] = n; item += &format!(" ret={n}"); }
                         self.handle[pid] = Some(repo);
                     }
                     Err(e) => {
@@ -288,8 +345,10 @@ impl Case {
         out.case(&request, &answer);
         out.tally("mode", &format!("{mode:?}"));
         out.tally("stream", label);
+        out.tally("clock", &format!("{:?}", self.clock));
         out.tally("max_heads", &self.max_heads.min(4).to_string());
         out.tally("merge_ops", &self.merges.min(3).to_string());
+        if self.identical_merges > 0 { out.tally("identical_merge_op_rewritten", &format!("{:?}", self.clock)); }
         if self.max_heads >= 2 { out.nontrivial(&request); }
         match self.failed.take() {
             None => out.oracle_ok(),
@@ -298,8 +357,8 @@ impl Case {
     }
 }
 
-fn random_case(out: &mut Out, env: &Env, r: &mut Rng, mode: Mode, np: usize, nops: usize) {
-    let mut c = Case::new(np + 1, env);
+fn random_case(out: &mut Out, env: &Env, r: &mut Rng, mode: Mode, clock: Clock, np: usize, nops: usize) {
+    let mut c = Case::new(np + 1, env, clock);
     let crashy = r.chance(1, 3);
     let mut started = 0;
     loop {
@@ -325,13 +384,13 @@ fn random_case(out: &mut Out, env: &Env, r: &mut Rng, mode: Mode, np: usize, nop
 
 /// All schedules (stateless DFS, re-executing from scratch) of fixed per-process programs after a
 /// sequential `setup`; at most `max_crashes` crashes per schedule.  Returns (cases run, completed?).
-fn exhaustive(out: &mut Out, env: &Env, mode: Mode, setup: &[(usize, Op)], programs: &[Vec<Op>], max_crashes: usize, budget: usize, label: &str) -> (usize, bool) {
+fn exhaustive(out: &mut Out, env: &Env, mode: Mode, clock: Clock, setup: &[(usize, Op)], programs: &[Vec<Op>], max_crashes: usize, budget: usize, label: &str) -> (usize, bool) {
     let np = programs.len();
     let mut prefix: Vec<usize> = vec![];
     let mut runs = 0;
     loop {
         if runs >= budget { return (runs, false); }
-        let mut c = Case::new(np + 1, env);
+        let mut c = Case::new(np + 1, env, clock);
         for (p, op) in setup { c.start(*p, *op); while c.parked(*p) { c.step(*p, mode); } }
         let mut next_op = vec![0usize; np];
         let mut choices: Vec<(usize, usize)> = vec![];
@@ -385,12 +444,18 @@ pub fn run(cfg: &Cfg, out: &mut Out) {
         ("load|load", &diverged, vec![vec![Load], vec![Load]], 0, if quick { 300 } else { 20000 }),
         ("commit,load|commit", &both_loaded, vec![vec![Commit, Load], vec![Commit]], 0, if quick { 400 } else { 20000 }),
     ];
-    for (label, setup, programs, max_crashes, budget) in plans {
+    for (label, setup, programs, max_crashes, budget) in &plans {
         for mode in [Mode::Working, Mode::Ineffective] {
-            let (n, done) = exhaustive(out, &env, mode, setup, &programs, max_crashes, budget * cfg.scale as usize, label);
+            let (n, done) = exhaustive(out, &env, mode, Clock::Distinct, setup, programs, *max_crashes, budget * cfg.scale as usize, label);
             notes.push(format!("{label} {mode:?}: {n} schedules{}", if done { " (all)" } else { " (budget reached)" }));
             complete &= done;
         }
+    }
+    // the same enumerations with every operation carrying the same timestamp: merge parents are ordered by
+    // `HashSet` iteration, and two resolvers frequently write one and the same merge operation (same id)
+    for (label, setup, programs, max_crashes, _) in &plans[1..3] {
+        let (n, _) = exhaustive(out, &env, Mode::Ineffective, Clock::Same, setup, programs, *max_crashes, 150 * cfg.scale as usize, label);
+        notes.push(format!("{label} Ineffective, equal timestamps: first {n} schedules"));
     }
     out.set_exhaustive(complete);
     out.note(format!("exhaustive schedule enumeration for 2 processes (≤1 crash where stated): {}", notes.join("; ")));
@@ -399,7 +464,10 @@ pub fn run(cfg: &Cfg, out: &mut Out) {
     for _ in 0..rounds {
         for (nops, np) in [(3usize, 2usize), (5, 2), (6, 3), (9, 3)] {
             for mode in [Mode::Seq, Mode::Working, Mode::Ineffective] {
-                for _ in 0..6 { random_case(out, &env, &mut r, mode, np, nops); }
+                for _ in 0..6 {
+                    let clock = match r.below(4) { 0 => Clock::Real, 1 => Clock::Same, _ => Clock::Distinct };
+                    random_case(out, &env, &mut r, mode, clock, np, nops);
+                }
             }
         }
     }
